@@ -658,3 +658,68 @@ def sibling_label_arms(chk, prog, funcs):
                                       '...%s... versus ...%s...: the two numbering conventions no longer build the same per-class data' %
                                       (name, ka[max(0, i - 40):i + 50], kb2[max(0, i - 40):i + 50])))
     return n_inst
+
+
+def inversion_failure_test(chk, prog, funcs):
+    """MatrixInversion(A, B); <scalar s computed from a matrix>; if (... isnan(s) ...) fallback:  the matrix s is computed from is the OUTPUT B of the
+    inversion (a failed inversion shows in its result), not its input A"""
+    R = chk.rule('INV.failure-test', 'the test that decides whether the inverse of the pooled covariance failed (and the pseudo-inverse is used instead) '
+                 'examines the result of the inversion, not the matrix that was inverted')
+    from .degenerate import _has_nan_test
+    for name in funcs:
+        f = prog.funcs.get(name)
+        if f is None or f.body is None:
+            continue
+        top = list(walk(f.body))
+        invs = [n for n in top if n.get('kind') == 'CallExpr' and callee_name(n) == 'MatrixInversion' and len(call_args(n)) == 2]
+        for inv in invs:
+            a_in = f.unit.text(call_args(inv)[0]).replace(' ', '')
+            a_out = f.unit.text(call_args(inv)[1]).replace(' ', '').lstrip('&')
+            # the first NaN-testing `if` after the call, in source order
+            after = False
+            test = None
+            for n in top:
+                if n is inv:
+                    after = True
+                    continue
+                if after and n.get('kind') == 'IfStmt' and _has_nan_test(kids(n)[0]) and any(
+                        m.get('kind') == 'CallExpr' and callee_name(m) in ('MatrixPseudoinversion', 'MatrixMoorePenrosePseudoinverse') for m in walk(n)):
+                    test = n
+                    break
+            if test is None:
+                continue
+            # the scalar that is tested, and the matrix it is computed from
+            tested = set()
+            for m in walk(kids(test)[0]):
+                if m.get('kind') == 'DeclRefExpr' and fe.is_float_type(m):
+                    tested.add(m['referencedDecl'].get('name'))
+            sources = set()
+            for n in top:
+                tgt = None
+                if n.get('kind') == 'VarDecl' and n.get('name') in tested and kids(n):
+                    tgt, rhs = n.get('name'), kids(n)[-1]
+                elif n.get('kind') in ('BinaryOperator', 'CompoundAssignOperator') and n.get('opcode', '').endswith('=') and n.get('opcode') not in ('==', '!=', '<=', '>=') \
+                        and strip(kids(n)[0]).get('kind') == 'DeclRefExpr' and strip(kids(n)[0])['referencedDecl'].get('name') in tested:
+                    tgt, rhs = strip(kids(n)[0])['referencedDecl'].get('name'), kids(n)[1]
+                if tgt is None:
+                    continue
+                for m in walk(rhs):
+                    if m.get('kind') == 'MemberExpr' and m.get('name') in ('data', 'row', 'col'):
+                        sources.add(f.unit.text(kids(m)[0]).replace(' ', ''))
+                    if m.get('kind') == 'CallExpr' and callee_name(m) not in ('square', 'fabs', 'sqrt'):
+                        for a in call_args(m):
+                            if 'matrix' in str(strip(a).get('type', {}).get('qualType', '')):
+                                sources.add(f.unit.text(a).replace(' ', '').lstrip('&'))
+            where = f.unit.where(test)
+            if not sources:
+                chk.instance(R, '%s %s: the matrix behind the tested value %s was not found' % (where, name, sorted(tested)), 'undecided')
+            elif a_out in sources and a_in not in sources:
+                chk.instance(R, '%s %s: the failure test reads %s, the result of MatrixInversion(%s, %s)' % (where, name, a_out, a_in, a_out))
+            elif a_in in sources and a_out not in sources:
+                chk.instance(R, '%s %s: the failure test reads %s, the INPUT of the inversion' % (where, name, a_in), 'refuted')
+                chk.violation(Finding('INV.failure-test', rel(f.file), name, 'input-tested', where,
+                                      '%s: after MatrixInversion(%s, %s) the test that switches to the pseudo-inverse is computed from %s, the matrix that was '
+                                      'inverted, not from the result %s: a failed inversion (NaN / zero result, e.g. for nearly singular or small-scale '
+                                      'covariances) goes unnoticed and the scores are computed with it' % (name, a_in, a_out, a_in, a_out)))
+            else:
+                chk.instance(R, '%s %s: the tested value is computed from %s: not decided' % (where, name, sorted(sources)), 'undecided')
